@@ -549,47 +549,47 @@ theorem repair_cut (p : Nat) (xs : List Entry) (hv : Valid p xs) (hc : TailClean
   rw [repairLines_torn p _ hsubb hsubc T hT]
   unfold Spec.encode; rw [encLines_flatten]
 
+/-- every entry fits into the whole region -/
+theorem linesWithin_full (p : Nat) (xs : List Entry) (hpl : ∀ x ∈ xs, x.pl.length = p) :
+    Spec.linesWithin p xs (Spec.encode p xs).length = xs.length := by
+  unfold Spec.linesWithin Spec.encode
+  have : ∀ (ys : List Entry) (full : Option Nat) (off n : Nat), (∀ x ∈ ys, x.pl.length = p) →
+      off + (Spec.encFrom p full ys).length ≤ n → Spec.linesWithinFrom p full off n ys = ys.length := by
+    intro ys
+    induction ys with
+    | nil => intro full off n _ _; cases full <;> simp [Spec.linesWithinFrom]
+    | cons e es ih =>
+      intro full off n hp hn
+      have he : e.pl.length = p := hp e (by simp)
+      have hes : ∀ x ∈ es, x.pl.length = p := fun x hx => hp x (by simp [hx])
+      match full with
+      | none =>
+        simp only [Spec.encFrom, List.length_append, encSection_length, encLine_length, he] at hn
+        have h1 : off + Spec.secSize p + Spec.lineSize p ≤ n := by
+          rw [spec_secSize]; show off + metaSize p + (p + 2) ≤ n; omega
+        simp only [Spec.linesWithinFrom, h1, if_true, List.length_cons]
+        rw [ih (some e.ts) _ n hes (by rw [spec_secSize]; show off + metaSize p + (p + 2) + _ ≤ n; omega)]
+        omega
+      | some f =>
+        by_cases hd : e.ts - f ≤ Spec.maxDelta
+        · simp only [Spec.encFrom, if_pos hd, List.length_append, encLine_length, he] at hn
+          have h1 : off + Spec.lineSize p ≤ n := by show off + (p + 2) ≤ n; omega
+          simp only [Spec.linesWithinFrom, if_pos hd, h1, if_true, List.length_cons]
+          rw [ih (some f) _ n hes (by show off + (p + 2) + _ ≤ n; omega)]
+          omega
+        · simp only [Spec.encFrom, if_neg hd, List.length_append, encSection_length, encLine_length, he] at hn
+          have h1 : off + Spec.secSize p + Spec.lineSize p ≤ n := by
+            rw [spec_secSize]; show off + metaSize p + (p + 2) ≤ n; omega
+          simp only [Spec.linesWithinFrom, if_neg hd, h1, if_true, List.length_cons]
+          rw [ih (some e.ts) _ n hes (by rw [spec_secSize]; show off + metaSize p + (p + 2) + _ ≤ n; omega)]
+          omega
+  exact this xs none 0 _ hpl (by simp)
+
 /-- an intact region is left alone -/
 theorem repair_intact (p : Nat) (xs : List Entry) (hv : Valid p xs) (hc : TailClean p xs) :
     repairData p (Spec.encode p xs) = Spec.encode p xs := by
   have h := repair_cut p xs hv hc (Spec.encode p xs).length
   rw [List.take_length] at h
-  rw [h]
-  -- everything fits
-  have hk : Spec.linesWithin p xs (Spec.encode p xs).length = xs.length := by
-    have hpl : ∀ x ∈ xs, x.pl.length = p := fun x hx => (hv.2 x hx).2
-    unfold Spec.linesWithin Spec.encode
-    have : ∀ (ys : List Entry) (full : Option Nat) (off n : Nat), (∀ x ∈ ys, x.pl.length = p) →
-        off + (Spec.encFrom p full ys).length ≤ n → Spec.linesWithinFrom p full off n ys = ys.length := by
-      intro ys
-      induction ys with
-      | nil => intro full off n _ _; cases full <;> simp [Spec.linesWithinFrom]
-      | cons e es ih =>
-        intro full off n hp hn
-        have he : e.pl.length = p := hp e (by simp)
-        have hes : ∀ x ∈ es, x.pl.length = p := fun x hx => hp x (by simp [hx])
-        match full with
-        | none =>
-          simp only [Spec.encFrom, List.length_append, encSection_length, encLine_length, he] at hn
-          have h1 : off + Spec.secSize p + Spec.lineSize p ≤ n := by
-            rw [spec_secSize]; show off + metaSize p + (p + 2) ≤ n; omega
-          simp only [Spec.linesWithinFrom, h1, if_true, List.length_cons]
-          rw [ih (some e.ts) _ n hes (by rw [spec_secSize]; show off + metaSize p + (p + 2) + _ ≤ n; omega)]
-          omega
-        | some f =>
-          by_cases hd : e.ts - f ≤ Spec.maxDelta
-          · simp only [Spec.encFrom, if_pos hd, List.length_append, encLine_length, he] at hn
-            have h1 : off + Spec.lineSize p ≤ n := by show off + (p + 2) ≤ n; omega
-            simp only [Spec.linesWithinFrom, if_pos hd, h1, if_true, List.length_cons]
-            rw [ih (some f) _ n hes (by show off + (p + 2) + _ ≤ n; omega)]
-            omega
-          · simp only [Spec.encFrom, if_neg hd, List.length_append, encSection_length, encLine_length, he] at hn
-            have h1 : off + Spec.secSize p + Spec.lineSize p ≤ n := by
-              rw [spec_secSize]; show off + metaSize p + (p + 2) ≤ n; omega
-            simp only [Spec.linesWithinFrom, if_neg hd, h1, if_true, List.length_cons]
-            rw [ih (some e.ts) _ n hes (by rw [spec_secSize]; show off + metaSize p + (p + 2) + _ ≤ n; omega)]
-            omega
-    exact this xs none 0 _ hpl (by simp)
-  rw [hk, List.take_length]
+  rw [h, linesWithin_full p xs (fun x hx => (hv.2 x hx).2), List.take_length]
 
 end BS.Impl
